@@ -171,7 +171,7 @@ ROI_BASE = [None]
 def rule_a(ctx, ix, f):
     R = 'C09.a'
     ctx.describe(R, 'every (region kind x axis kinds x pretransform) combination reaches a returned selection through implemented methods',
-                 floor=60)
+                 floor=40)
     roi = ix.cls('glue.core.roi.Roi')
     ROI_BASE[0] = roi
     classes = []
